@@ -121,3 +121,8 @@ Theorem gen_hand_eq : forall ds sq drain elv, length drain = length ds ->
   gen_height_above_nearest_drain ds sq drain elv = hand ds sq drain elv.
 Proof. exact GenOpsEq.gen_hand_eq. Qed.
 Print Assumptions gen_hand_eq.
+(* the stream distance (its step length gis_utils.distance is an abstract function; unit 'cell' is the constant 1) *)
+Theorem gen_stream_distance_eq : forall ds sq mask real steplen,
+  gen_stream_distance ds sq mask real steplen = stream_distance ds sq mask (if real then steplen else fun _ _ => 1).
+Proof. exact GenOpsEq.gen_stream_distance_eq. Qed.
+Print Assumptions gen_stream_distance_eq.
